@@ -34,6 +34,13 @@ hands to the constructors accordingly (`SPELLINGS` lists what the constructors a
                     "str" (applies to one-cell rows)
   "body.<opt>":     opt ∈ group_by page_by subline_by (the column-name arguments of RTFBody; every body of a multi
                     document): "list" | "tuple" | "str" (applies to exactly one column name: the bare string)
+  "body.<opt>@<i>": kind="multi": the same for the body of section i only (overrides "body.<opt>"), so that the
+                    sections of one document — and the arguments of one body — mix spellings
+  "page.margin":    "list" | "tuple"
+  "<comp>.col_rel_width":  comp ∈ body headers footnote source: "list" | "tuple" | "ndarray" (a flat list of numbers)
+  "figure.figures": the `figures=` list of paths: "list" | "tuple";  "figure.fig_width" / "figure.fig_height":
+                    "list" | "tuple" | "ndarray" (applies to a list value)
+`gen_spelling(..., args=True)` draws all of them (`ARG_SPELLINGS`).
 """
 from __future__ import annotations
 
@@ -233,13 +240,50 @@ SPELLINGS = {
     **{f"body.{c}": ("list", "tuple", "str") for c in ("group_by", "page_by", "subline_by")},
 }
 BODY_NAME_ARGS = ("group_by", "page_by", "subline_by")
+WIDTH_COMPONENTS = ("body", "headers", "footnote", "source")
+# the other container-typed constructor arguments (what the constructors accept was probed on the real classes: a
+# polars Series / numpy array is refused for the Sequence[...] fields — names, texts, margin —, taken for the widths)
+ARG_SPELLINGS = {
+    "page.margin": ("list", "tuple"),
+    **{f"{c}.col_rel_width": ("list", "tuple", "ndarray") for c in WIDTH_COMPONENTS},
+    "figure.figures": ("list", "tuple"),
+    "figure.fig_width": ("list", "tuple", "ndarray"),
+    "figure.fig_height": ("list", "tuple", "ndarray"),
+}
+SPELLINGS.update(ARG_SPELLINGS)
 
 
-def _body_kw(d, sp):
-    """constructor kwargs of one RTFBody; the column-name arguments in the container spelling sp["body.<opt>"]"""
+def _known_spelling(k, v):
+    if "@" in k:                                   # "body.<opt>@<i>": one section's body
+        base, _, i = k.partition("@")
+        return base in SPELLINGS and base.startswith("body.") and base[5:] in BODY_NAME_ARGS and i.isdigit() \
+            and v in SPELLINGS[base]
+    return k in SPELLINGS and v in SPELLINGS[k]
+
+
+def spell_seq(v, how):
+    """a flat list value `v` in the container spelling `how` (any other value — a scalar, a marker dict, a nested
+    list — is left as it is)"""
+    if how is None or not isinstance(v, list) or any(isinstance(x, (list, dict)) for x in v):
+        return v
+    if how == "tuple":
+        return tuple(v)
+    if how == "ndarray":
+        if not v or not all(isinstance(x, (int, float)) and not isinstance(x, bool) for x in v):
+            return v
+        import numpy as np
+        return np.array([float(x) for x in v])
+    return list(v)
+
+
+def _body_kw(d, sp, i=None):
+    """constructor kwargs of one RTFBody (of section `i` of a multi document); the column-name arguments in the
+    container spelling sp["body.<opt>@<i>"] / sp["body.<opt>"]"""
     kw = _kw(d)
+    if "col_rel_width" in kw:
+        kw["col_rel_width"] = spell_seq(kw["col_rel_width"], (sp or {}).get("body.col_rel_width"))
     for c in BODY_NAME_ARGS:
-        how = (sp or {}).get(f"body.{c}")
+        how = (sp or {}).get(f"body.{c}@{i}") or (sp or {}).get(f"body.{c}")
         v = (d or {}).get(c)
         if how is None or not isinstance(v, list):
             continue
@@ -282,10 +326,12 @@ def spell_text(v, how):
     raise ValueError(f"unknown text spelling {how!r}")
 
 
-def _spelled_kw(d, how):
+def _spelled_kw(d, how, widths=None):
     kw = _kw(d)
     if how is not None and "text" in (d or {}):
         kw["text"] = spell_text(d["text"], how)
+    if widths is not None and "col_rel_width" in kw:
+        kw["col_rel_width"] = spell_seq(kw["col_rel_width"], widths)
     return kw
 
 
@@ -308,10 +354,14 @@ def own_widths_class(h):
     return "all" if all(own) else "none" if not any(own) else "mixed"
 
 
-def gen_spelling(rng, spec, *, p=0.6, force=None):
+def gen_spelling(rng, spec, *, p=0.6, force=None, args=False):
     """Draw a container spelling for every component argument of `spec` the constructors accept one for (each with
     probability `p`, otherwise the spelling `build` uses by itself); `force` fixes some keys.  Only spellings that
     mean the same document are drawn (a tuple of sections' tuples is left to the callers that want the refusal).
+    `args=True` (drawn AFTER the keys above, whose draws are unaffected) adds every other container-typed constructor
+    argument: the column-name arguments of every body (`body.<opt>`, per section `body.<opt>@<i>` in a multi document,
+    each argument on its own so that list / tuple / str are mixed on one body), the page margin, the col_rel_width of
+    body / headers / footnote / source, the figure list and its size lists.
     Returns the dict to store as spec["spelling"]."""
     sp = {}
     kind = spec.get("kind", "table")
@@ -334,31 +384,89 @@ def gen_spelling(rng, spec, *, p=0.6, force=None):
             cur = "str" if isinstance(d["text"], str) else "list"
             pool = [x for x in (["str"] if len(lines) == 1 else []) + ["list", "tuple", "tuple"] if x != cur]
             sp[f"{c}.text"] = rng.choice(pool)
+    if args:
+        sp.update(gen_arg_spelling(rng, spec, p=p))
     sp.update(force or {})
+    return sp
+
+
+def gen_arg_spelling(rng, spec, *, p=0.6):
+    """container spellings of the constructor arguments other than texts and header containers (see `gen_spelling`)"""
+    sp = {}
+    kind = spec.get("kind", "table")
+
+    def names(b, suffix):
+        for c in BODY_NAME_ARGS:
+            v = (b or {}).get(c)
+            if isinstance(v, list) and v and rng.random() < max(p, 0.75):
+                sp[f"body.{c}{suffix}"] = rng.choice(["tuple", "tuple", "tuple", "str"] if len(v) == 1 else ["tuple"])
+
+    def flat(v):
+        return isinstance(v, list) and bool(v) and not any(isinstance(x, (list, dict)) for x in v)
+    if kind == "multi":
+        for i, b in enumerate(spec.get("body") or []):
+            names(b, f"@{i}")
+        bodies = list(spec.get("body") or [])
+    elif kind == "table":
+        names(spec.get("body"), "")
+        bodies = [spec.get("body") or {}]
+    else:
+        bodies = [spec.get("body") or {}] if isinstance(spec.get("body"), dict) else []
+    if flat((spec.get("page") or {}).get("margin")) and rng.random() < p:
+        sp["page.margin"] = "tuple"
+    h = spec.get("headers", "default")
+    hrows = [] if h == "default" or not h else [x for sec in h for x in sec] if isinstance(h[0], list) else list(h)
+    for comp, items in (("body", bodies), ("headers", hrows), ("footnote", [spec.get("footnote")]),
+                        ("source", [spec.get("source")])):
+        if any(isinstance(x, dict) and flat(x.get("col_rel_width")) for x in items) and rng.random() < p:
+            sp[f"{comp}.col_rel_width"] = rng.choice(["tuple", "tuple", "ndarray"])
+    if kind == "figure":
+        fig = spec.get("figure") or {}
+        if len(fig.get("files") or []) != 1 or fig.get("_as_list"):
+            if rng.random() < p:
+                sp["figure.figures"] = "tuple"
+        for a in ("fig_width", "fig_height"):
+            if flat(fig.get(a)) and rng.random() < p:
+                sp[f"figure.{a}"] = rng.choice(["tuple", "ndarray"])
     return sp
 
 
 def spelling_labels(spec):
     """input-distribution labels of a spec's container spellings (for res.count)"""
     sp = spec.get("spelling") or {}
-    out = [f"spell:{k}={v}" for k, v in sorted(sp.items())]
+    out = sorted({f"spell:{k.partition('@')[0]}={v}" for k, v in sp.items()})
+    mix = set()
+    named = [k for k in sp if k.startswith("body.") and k[5:].partition("@")[0] in BODY_NAME_ARGS]
+    for i in sorted({k.partition("@")[2] for k in named}):       # per body: do its name arguments mix containers?
+        bodies = spec.get("body") if i else [spec.get("body")]
+        b = (bodies[int(i)] if i and isinstance(bodies, list) and int(i) < len(bodies) else bodies[0]) or {}
+        kinds = {("list" if (sp.get(f"body.{c}@{i}") or sp.get(f"body.{c}") or "list") == "str" else
+                  sp.get(f"body.{c}@{i}") or sp.get(f"body.{c}") or "list")
+                 for c in BODY_NAME_ARGS if isinstance(b, dict) and b.get(c)}
+        if kinds:
+            mix.add("spell:body-names=" + "+".join(sorted(kinds)))
+    out += sorted(mix)
     if sp.get("headers") in ("tuple", "single") or sp.get("sections"):
         out.append(f"spell:headers={sp.get('headers', 'list')}/own-widths={own_widths_class(spec.get('headers', 'default'))}")
     return out
 
 
-def _shared_objects(items, share, make, what):
+def _shared_objects(items, share, make, what, indexed=False):
     """one constructed object per entry of `items` — or, with `share` (optional spec key "share": {"body": [...],
     "headers": [...]}, kind="multi" only), the VERY SAME object for several sections: share[i] = j ≤ i hands section i
     the object built for section j (j = i: its own object).  The components of a document are held by reference, and a
     caller may give one RTFBody (one header list with its RTFColumnHeader objects) for several sections of a list
     document.  The spec stays in the plain per-section shape (items[i] must equal items[j]), so every reader of
     spec["body"][i] / spec["headers"][i] is unaffected."""
+    if indexed:
+        made, make = make, (lambda x: made(x, len(out)))
+    out = []
     if share is None:
-        return [make(x) for x in items]
+        for x in items:
+            out.append(make(x))
+        return out
     if len(share) != len(items):
         raise ValueError(f"share.{what}: one entry per section expected")
-    out = []
     for i, x in enumerate(items):
         j = share[i]
         if not isinstance(j, int) or j < 0 or j > i or share[j] != j:
@@ -388,7 +496,7 @@ def build(spec, workdir: str | None = None):
     kind = spec.get("kind", "table")
     sp = spec.get("spelling") or {}
     for k, v in sp.items():
-        if k not in SPELLINGS or v not in SPELLINGS[k]:
+        if not _known_spelling(k, v):
             raise ValueError(f"unknown container spelling {k}={v!r}")
     if kind == "figure":
         fig = dict(spec["figure"])
@@ -407,12 +515,16 @@ def build(spec, workdir: str | None = None):
                 os.symlink(f["symlink_to"], p)  # target relative to the link's directory
         for i, f in enumerate(files):
             paths.append(spell_path(wd / f["name"], f.get("spell")))
-        kw["rtf_figure"] = rtf.RTFFigure(figures=paths if len(paths) != 1 or fig.pop("_as_list", False) else paths[0],
-                                         **_kw(fig))
+        figs = paths if len(paths) != 1 or fig.pop("_as_list", False) else paths[0]
+        fkw = _kw(fig)
+        for a in ("fig_width", "fig_height"):
+            if a in fkw:
+                fkw[a] = spell_seq(fkw[a], sp.get(f"figure.{a}"))
+        kw["rtf_figure"] = rtf.RTFFigure(figures=spell_seq(figs, sp.get("figure.figures")), **fkw)
     elif kind == "multi":
         kw["df"] = [make_frame(f) for f in spec["df"]]
         kw["rtf_body"] = _shared_objects(spec["body"], (spec.get("share") or {}).get("body"),
-                                         lambda b: rtf.RTFBody(**_body_kw(b, sp)), "body")
+                                         lambda b, i: rtf.RTFBody(**_body_kw(b, sp, i)), "body", indexed=True)
     else:
         kw["df"] = make_frame(spec["df"])
         if spec.get("body") is not None:
@@ -422,17 +534,21 @@ def build(spec, workdir: str | None = None):
             kw["df"] = [kw["df"]]
             kw["rtf_body"] = [kw["rtf_body"] if "rtf_body" in kw else rtf.RTFBody()]
     if spec.get("page") is not None:
-        kw["rtf_page"] = rtf.RTFPage(**_kw(spec["page"]))
+        pkw = _kw(spec["page"])
+        if "margin" in pkw:
+            pkw["margin"] = spell_seq(pkw["margin"], sp.get("page.margin"))
+        kw["rtf_page"] = rtf.RTFPage(**pkw)
     for key, cls, arg in (("title", rtf.RTFTitle, "rtf_title"), ("subline", rtf.RTFSubline, "rtf_subline"),
                           ("page_header", rtf.RTFPageHeader, "rtf_page_header"),
                           ("page_footer", rtf.RTFPageFooter, "rtf_page_footer"),
                           ("footnote", rtf.RTFFootnote, "rtf_footnote"), ("source", rtf.RTFSource, "rtf_source")):
         if spec.get(key) is not None:
-            kw[arg] = cls(**_spelled_kw(spec[key], sp.get(f"{key}.text")))
+            kw[arg] = cls(**_spelled_kw(spec[key], sp.get(f"{key}.text"), sp.get(f"{key}.col_rel_width")))
     h = spec.get("headers", "default")
     if h != "default" and kind != "figure":
         def mk(x):
-            return None if x is None else rtf.RTFColumnHeader(**_spelled_kw(x, sp.get("headers.text")))
+            return None if x is None else rtf.RTFColumnHeader(**_spelled_kw(x, sp.get("headers.text"),
+                                                                            sp.get("headers.col_rel_width")))
         if h and isinstance(h[0], list):
             inner = _shared_objects(h, (spec.get("share") or {}).get("headers") if kind == "multi" else None,
                                     lambda sec: _container([mk(x) for x in sec], sp.get("headers.inner")), "headers")
